@@ -34,7 +34,7 @@ fn u64_values(t: &mut Tape, truth: u64) -> Vec<u64> {
 }
 
 /// (plan, field, note)
-fn field_variants(t: &mut Tape, plan: &XzPlan) -> Vec<(XzPlan, &'static str, String)> {
+pub fn field_variants(t: &mut Tape, plan: &XzPlan) -> Vec<(XzPlan, &'static str, String)> {
     let mut v: Vec<(XzPlan, &'static str, String)> = Vec::new();
     let built = build_xz(plan);
     let field = |name: &str| built.fields.iter().find(|f| f.name == name).cloned();
